@@ -18,7 +18,12 @@ Inductive gtok :=
 | GHandler   (* the call of the user's handler *)
 | GServe     (* handler.ServeHTTP: entering the wrapped chain (net/http flavours) *)
 | GChain     (* the loop over the per-operation middlewares *)
-| GPublish.  (* a security scheme's scopes stored in the request context *)
+| GPublish   (* a security scheme's scopes stored in the request context *)
+(* the strict wrappers (read with the tokeniser's strict mode): *)
+| GInvoke    (* response, err := handler(...): the strict handler chain is called *)
+| GErrIf     (* if err != nil { *)
+| GElse      (* } else : the branch is closed and the if / else-if chain goes on *)
+| GVisit.    (* a call of a Visit...Response method: the response object writes itself *)
 
 Inductive tmpl :=
 | TEmpty
@@ -60,7 +65,7 @@ Definition op_body_or_empty (t : tmpl) : tmpl := match op_body t with Some b => 
 Definition gtok_eqb (a b : gtok) : bool :=
   match a, b with
   | GReport, GReport | GReturn, GReturn | GOpen, GOpen | GClose, GClose | GHandler, GHandler | GServe, GServe
-  | GChain, GChain | GPublish, GPublish => true
+  | GChain, GChain | GPublish, GPublish | GInvoke, GInvoke | GErrIf, GErrIf | GElse, GElse | GVisit, GVisit => true
   | _, _ => false
   end.
 
@@ -135,3 +140,57 @@ Fixpoint ordered (t : tmpl) : bool :=
 (** The wrapper that goes on after a report (the return forgotten): the criterion rejects it, and it does run the handler. *)
 Definition forgetful : tmpl :=
   TSeq (TRange "params" (TSeg [GOpen; GReport; GClose]) TEmpty) (TSeg [GHandler; GClose]).
+
+
+(** * Criteria as automata.  A criterion is an automaton over the tokens with a state to come back to; a term whose every
+      segment, read on its own from that state, comes back to it, renders only texts that do (Proofs/TmplProofs.v), under
+      every environment. *)
+Section Automaton.
+Variable S : Type.
+Variable step : S -> gtok -> option S.
+Fixpoint run (s : S) (l : list gtok) : option S :=
+  match l with [] => Some s | g :: r => match step s g with Some s' => run s' r | None => None end end.
+Variable s0 : S.
+Variable is_s0 : S -> bool.
+Definition closed_text (l : list gtok) : bool := match run s0 l with Some s => is_s0 s | None => false end.
+Fixpoint segments_closed (t : tmpl) : bool :=
+  match t with
+  | TEmpty => true
+  | TSeg l => closed_text l
+  | TIf _ a b | TRange _ a b | TSeq a b => segments_closed a && segments_closed b
+  end.
+End Automaton.
+
+(** * The tail of a strict wrapper: the response object is written (Visit...Response) only in an else-branch of the
+      [if err != nil] that directly follows the call of the strict handler chain - never when the chain returned an
+      error, never outside that chain of branches. *)
+Inductive tail_state := TIdle | TInvoked | TInErr (d : nat) | TInElse (d : nat).
+Definition tail_step (s : tail_state) (g : gtok) : option tail_state :=
+  match s, g with
+  | TIdle, GInvoke => Some TInvoked
+  | TIdle, GVisit => None
+  | TIdle, _ => Some TIdle
+  | TInvoked, GErrIf => Some (TInErr 1)
+  | TInvoked, (GVisit | GInvoke | GOpen | GClose | GElse) => None
+  | TInvoked, _ => Some TInvoked
+  | TInErr d, (GOpen | GErrIf) => Some (TInErr (S d))
+  | TInErr d, GClose => Some (match d with 0 | 1 => TIdle | S d' => TInErr d' end)
+  | TInErr d, GElse => Some (match d with 0 | 1 => TInElse 0 | S d' => TInErr d' end)
+  | TInErr _, (GVisit | GInvoke) => None
+  | TInErr d, _ => Some (TInErr d)
+  | TInElse d, (GOpen | GErrIf) => Some (TInElse (S d))
+  | TInElse d, GClose => Some (match d with 0 | 1 => TIdle | S d' => TInElse d' end)
+  | TInElse d, GElse => Some (match d with 0 | 1 => TInElse 0 | S d' => TInElse d' end)
+  | TInElse d, GVisit => match d with 0 => None | _ => Some (TInElse d) end
+  | TInElse _, GInvoke => None
+  | TInElse d, _ => Some (TInElse d)
+  end.
+Definition is_idle (s : tail_state) : bool := match s with TIdle => true | _ => false end.
+Definition visits_guarded (l : list gtok) : bool := closed_text tail_state tail_step TIdle is_idle l.
+Definition strict_segments_ok (t : tmpl) : bool := segments_closed tail_state tail_step TIdle is_idle t.
+
+(** the tail with the first else lost: the response is written although the chain returned an error *)
+Definition tail_without_else : list gtok :=
+  [GInvoke; GErrIf; GReport; GClose; GOpen; GOpen; GVisit; GReport; GClose; GElse; GOpen; GReport; GClose].
+Definition tail_of_the_templates : list gtok :=
+  [GInvoke; GErrIf; GReport; GElse; GOpen; GOpen; GVisit; GReport; GClose; GElse; GOpen; GReport; GClose].
